@@ -183,11 +183,132 @@ def run_lists(case, sim):
             "signature": qcommon.h16((backend, case["allow0"], case["allow1"], [(v[0][:6], v[1], v[2], v[3]) for v in out["vals"]]))}
 
 
+def gen_race(rng, knobs):
+    """race mode: the first validations a freshly built pipeline ever runs, two or three at once on executor
+    threads, pre-empted at bytecode boundaries of nostr_relay.validators (and what it builds)"""
+    base = gen(rng, dict(knobs, _no_modes=True))
+    evs = [json.loads(i[1])[1] for i in base["clients"][1]["script"] if i[0] == "send"]
+    rng.shuffle(evs)
+    pipe = [p for p in base["pipeline"] if not p.endswith("is_pubkey_allowed")]
+    return {"mode": "race", "backend": "sql", "pipeline": pipe, "cfg": base["cfg"], "events": evs[:rng.choice([2, 2, 3])],
+            "weights": rng.choice([{"stay": 10.0, "switch": 1.0, "start": 1.0}, {"stay": 50.0, "switch": 1.0, "start": 3.0},
+                                   {"stay": 2.0, "switch": 1.0, "start": 1.0}])}
+
+
+def run_race(case, sim):
+    """no storage, no loop: validate() coroutines are driven by hand, their executor jobs run on real threads"""
+    import importlib
+    import types as _types
+    from ..worlds import lists as lw
+    from ..worlds import env as envmod
+    from .. import seams
+    cfg = dict(case["cfg"])
+    cfg["service_privatekey"] = evgen.SERVICE_SK
+    envmod.reset_globals()
+    envmod.reset_config(**cfg)
+    from nostr_relay.config import Config
+    from nostr_relay import validators as V_
+    from nostr_relay import util as U_
+    import asyncio as _aio
+    seams.activate(sim)
+    jobs = []
+
+    class Pending:
+        def __init__(self):
+            self.done, self.res, self.exc = False, None, None
+
+        def __await__(self):
+            if not self.done:
+                yield self
+            if self.exc is not None:
+                raise self.exc
+            return self.res
+
+    class CapLoop:
+        def run_in_executor(self, ex, fn, *args):
+            p = Pending()
+            jobs.append((p, fn, args))
+            return p
+
+    cap = CapLoop()
+
+    class NS(_types.SimpleNamespace):
+        def __getattr__(self, name):
+            return getattr(_aio, name)
+
+    async def to_thread(fn, *a, **k):
+        import functools
+        return await cap.run_in_executor(None, functools.partial(fn, *a, **k))
+    real_ns = V_.asyncio
+    V_.asyncio = NS(get_running_loop=lambda: cap, get_event_loop=lambda: cap, to_thread=to_thread)
+    out = []
+    try:
+        from aionostr.event import Event
+        validate = V_.get_validator(list(case["pipeline"]))
+        coros = []
+        for ev in case["events"]:
+            try:
+                e = Event(**ev)
+            except Exception:
+                continue
+            c = validate(e, Config)
+            try:
+                c.send(None)
+                coros.append((ev, c, len(jobs) - 1))
+            except StopIteration:
+                out.append((ev, "pass", None))
+            except Exception as ex:
+                out.append((ev, "refuse", type(ex).__name__))
+        codes = lw.module_codes(V_)
+        lw.nested_codes(validate, codes)
+        lw.nested_codes(U_.object_from_path, codes)
+        race = lw.ThreadRace(sim, codes, [(lambda f=fn, a=args: f(*a)) for p, fn, args in jobs], case.get("weights"))
+        done = race.run()
+        for (p, fn, args), j in zip(jobs, done):
+            p.done, p.res, p.exc = True, j.result, j.exc
+        for ev, c, ji in coros:
+            try:
+                c.send(None)
+                out.append((ev, "refuse", "still-pending"))
+            except StopIteration:
+                out.append((ev, "pass", None))
+            except Exception as ex:
+                out.append((ev, "refuse", "%s: %s" % (type(ex).__name__, str(ex)[:60])))
+        boundaries, switches = race.boundaries, race.switches
+    finally:
+        V_.asyncio = real_ns
+        seams.deactivate()
+    viol = []
+    names = [p.split(".")[-1] for p in case["pipeline"]]
+    now = sim.clock.wall()
+    overlapped = switches > len(case["events"])
+    for ev, res, why in out:
+        expect = None
+        for nme in names:
+            expect = decide(nme, ev, cfg, now, (set(), set()), evgen.SERVICE.pub)
+            if expect:
+                break
+        if expect and res == "pass":
+            viol.append({"cls": "race-policy-not-enforced", "sig": "race-policy-not-enforced|%s" % expect,
+                         "detail": {"expected": expect, "pipeline": names, "events_at_once": len(case["events"]),
+                                    "thread_switches": switches}})
+        elif not expect and res != "pass":
+            viol.append({"cls": "race-wrongly-refused", "sig": "race-wrongly-refused|%s" % str(why)[:30],
+                         "detail": {"reason": why, "pipeline": names}})
+    sim.note("race", "%d %d" % (boundaries, switches))
+    return {"violations": viol[:1], "nontrivial": overlapped,
+            "probes": {"mode_race": 1, "race_bytecode_boundaries": boundaries, "race_thread_switches": switches},
+            "signature": qcommon.h16((names, [(e["id"][:6], r) for e, r, _ in out], switches))}
+
+
 def gen(rng, knobs):
     import os
     share = float(os.environ.get("VERIF_C16_LISTS_SHARE", "0.4"))
-    if rng.random() < share:
-        return gen_lists(rng)
+    if not knobs.get("_no_modes"):
+        if rng.random() < share:
+            return gen_lists(rng)
+        if rng.random() < 0.15:
+            return gen_race(rng, knobs)
     backend = rng.choice(["sql", "lmdb"])
     pipe = [p for p in ALL if rng.random() < 0.4]
     rng.shuffle(pipe)
@@ -244,6 +365,9 @@ def gen(rng, knobs):
 def sample(case):
     if case.get("mode") == "lists":
         return {k: case[k] for k in ("mode", "backend", "allow0", "allow1", "validators", "weights")}
+    if case.get("mode") == "race":
+        return {"mode": "race", "pipeline": [p.split(".")[-1] for p in case["pipeline"]], "events": len(case["events"]),
+                "weights": case["weights"]}
     return {"backend": case["backend"], "pipeline": [p.split(".")[-1] for p in case["pipeline"]],
             "cfg": {k: (v if not isinstance(v, list) or len(str(v)) < 40 else len(v)) for k, v in case["cfg"].items()},
             "events": sum(1 for i in case["clients"][1]["script"] if i[0] == "send")}
@@ -301,6 +425,8 @@ def decide(name, ev, cfg, now, lists_state, service_pub):
 def run(case, sim):
     if case.get("mode") == "lists":
         return run_lists(case, sim)
+    if case.get("mode") == "race":
+        return run_race(case, sim)
     backend = case["backend"]
     names = recval.install(case["pipeline"])
     cfg = dict(case["cfg"])
